@@ -163,6 +163,7 @@ type Sim struct {
 	probeSeq int
 	NextPower map[int64][]int64 // validator powers in force from height h on (validator-set changes applied by EndBlock of h-1)
 	Live     bool // real tickers and receiveRoutines (trace-recording mode)
+	PeerIdx  map[string]int // live stack mode: p2p peer key -> validator index
 	ByzActive bool // live mode: Byzantine validators send equivocating messages
 	LiveScale int // timeout scale in ms (propose = 6x, prevote/precommit = 3x, commit = 2x)
 }
